@@ -129,7 +129,7 @@ func (v *defaultValidator) dumpDefaultValue(out *codegen.Emitter) any {
 		if ok {
 			namedFields := ""
 			for _, k := range sortedKeys(dvm) {
-				namedFields += fmt.Sprintf("\n%s: %s,", upperFirst(k), litter.Sdump(dvm[k]))
+				namedFields += fmt.Sprintf("\n%s: %s,", structFieldName(nt.Decl.Type, k), litter.Sdump(dvm[k]))
 			}
 
 			namedFields += "\n"
@@ -144,6 +144,19 @@ func (v *defaultValidator) dumpDefaultValue(out *codegen.Emitter) any {
 
 	// Fallback to sdump in case we couldn't dump it properly.
 	return litter.Sdump(v.defaultValue)
+}
+
+// structFieldName returns the name of the Go field that holds the given JSON property of a struct.
+func structFieldName(t codegen.Type, jsonName string) string {
+	if st, ok := t.(*codegen.StructType); ok {
+		for _, f := range st.Fields {
+			if f.JSONName == jsonName {
+				return f.Name
+			}
+		}
+	}
+
+	return upperFirst(jsonName)
 }
 
 func (v *defaultValidator) tryDumpDefaultSlice(maxLineLen int32) (string, error) {
